@@ -276,7 +276,9 @@ class Function:
             return self._canon_cache[key]
         self._thru_calls = calls
         try:
-            r = self._canon(i, subst, fold, casts, depth, inline_helpers, _stack or ())
+            if i is None:
+            return "?"       # a store without a right-hand side (x++ / x--, also spelled x = x + 1)
+        r = self._canon(i, subst, fold, casts, depth, inline_helpers, _stack or ())
         finally:
             self._thru_calls = False
         if _stack is None:
